@@ -253,8 +253,7 @@ def _build_shim(cfg, log):
     if san == "asan":
         fl = c["cflags"].split()
         # shim is compiled with the same sanitizers, without the malloc renames
-        fl = [f for f in fl if not f.startswith("-Dmalloc") and not f.startswith("-Dcalloc")
-              and not f.startswith("-Drealloc") and not f.startswith("-Dposix_memalign")]
+        fl = [f for f in fl if not f.startswith(("-Dmalloc", "-Dcalloc", "-Drealloc", "-Dposix_memalign", "-Dfree"))]
     elif san == "thread":
         fl = TSAN.split()
     elif san == "trace":
@@ -294,7 +293,7 @@ def _shim_flags(cfg):
     c = CONFIGS[cfg]
     san = c.get("san", "asan")
     if san == "asan":
-        fl = [f for f in c["cflags"].split() if not f.startswith(("-Dmalloc", "-Dcalloc", "-Drealloc", "-Dposix_memalign"))]
+        fl = [f for f in c["cflags"].split() if not f.startswith(("-Dmalloc", "-Dcalloc", "-Drealloc", "-Dposix_memalign", "-Dfree"))]
     elif san == "thread":
         fl = TSAN.split()
     else:
@@ -361,7 +360,7 @@ def san_env(cfg, extra=None):
     elif san == "trace":
         env["LD_PRELOAD"] = libpaths(cfg)["trace"]
     if c.get("fi"):
-        env["LD_PRELOAD"] = os.path.join(builddir(cfg), "libvffi.so") + ":" + env.get("LD_PRELOAD", "")
+        env["LD_PRELOAD"] = env.get("LD_PRELOAD", "") + ":" + os.path.join(builddir(cfg), "libvffi.so")
     if extra:
         env.update(extra)
     return env
